@@ -167,7 +167,8 @@ STREAM(huge_span) {
   for (int mask = 0; mask < 2; mask++) {
     MODULE* mod = get_module(nn, 0, mask);
     std::string verdict = "ok";
-    auto fail = [&](const char* what) { if (verdict == "ok") verdict = std::string("FAIL C08 ") + what + ": a limb offset beyond 2^32 elements is computed in fewer than 64 bits"; };
+    auto add = [&](const std::string& v) { if (verdict == "ok") verdict = v; else if (verdict.find(v.substr(0, 8)) == std::string::npos) verdict += " ;; " + v; };
+    auto fail = [&](const char* what) { add(std::string("FAIL C08 ") + what + ": a limb offset beyond 2^32 elements is computed in fewer than 64 bits"); };
     // limbs 2^31 coefficients apart: limb 2 starts at offset 2^32
     const uint64_t SL = (uint64_t)1 << 31;
     int64_t* big = (int64_t*)base;
@@ -207,15 +208,15 @@ STREAM(huge_span) {
       put(a);
       svp_apply_dft(mod, (VEC_ZNX_DFT*)d1.data(), 3, (SVP_PPOL*)pp.data(), a.data(), 3, nn);
       svp_apply_dft(mod, (VEC_ZNX_DFT*)d2.data(), 3, (SVP_PPOL*)pp.data(), big, 3, SL);
-      if (memcmp(d1.data(), d2.data(), d1.size() * 8) && verdict == "ok") verdict = "FAIL C01 svp_apply_dft (source stride 2^31): a limb offset beyond 2^32 elements is computed in fewer than 64 bits";
+      if (memcmp(d1.data(), d2.data(), d1.size() * 8)) add("FAIL C01 svp_apply_dft (source stride 2^31): a limb offset beyond 2^32 elements is computed in fewer than 64 bits");
       double* src = (double*)base + 16;                       // a_dft
       double* dst = src + ((uint64_t)1 << 32);                // res, exactly 2^32 doubles further
       memcpy(src, d1.data(), d1.size() * 8);
       memset(dst, 0x33, d1.size() * 8);
       vec_znx_idft(mod, (VEC_ZNX_BIG*)ref.data(), 3, (VEC_ZNX_DFT*)d1.data(), 3, tmp.data());
       vec_znx_idft(mod, (VEC_ZNX_BIG*)dst, 3, (VEC_ZNX_DFT*)src, 3, tmp.data());
-      if (memcmp(ref.data(), dst, ref.size() * 8) && verdict == "ok") verdict = "FAIL C01 vec_znx_idft between buffers 2^32 doubles apart differs from the ordinary call (pointer distance truncated)";
-      if (memcmp(src, d1.data(), d1.size() * 8) && verdict == "ok") verdict = "FAIL C18 vec_znx_idft modified its DFT source (buffers 2^32 doubles apart)";
+      if (memcmp(ref.data(), dst, ref.size() * 8)) add("FAIL C01 vec_znx_idft between buffers 2^32 doubles apart differs from the ordinary call (pointer distance truncated)");
+      if (memcmp(src, d1.data(), d1.size() * 8)) add("FAIL C18 vec_znx_idft modified its DFT source (buffers 2^32 doubles apart)");
     }
     fprintf(out.ops, "ca nop huge_span nn=%lu mask=%d", (unsigned long)nn, mask);
     fprintf(out.real, "nop");
@@ -225,16 +226,15 @@ STREAM(huge_span) {
   {
     const uint64_t nn = 65536, nrows = 2050, blk = 5;
     uint64_t* mat = (uint64_t*)base;
-    std::vector<uint64_t> dst(8 * nrows), dst2(8 * nrows);
+    std::vector<uint64_t> dst(8 * nrows);
     std::string verdict = "ok";
     for (uint64_t row : {(uint64_t)0, (uint64_t)1, (uint64_t)2047, (uint64_t)2048, (uint64_t)2049})
       for (int i = 0; i < 8; i++) mat[row * 4 * nn + 8 * blk + i] = 0x1000 * (row + 1) + i;
     q120x2_extract_1blk_from_contiguous_q120b_ref(nn, nrows, blk, (q120x2b*)dst.data(), (q120b*)mat);
-    dst2 = dst;   // (the _avx twin is declared in the header but not defined in the library)
+    // (the _avx twin is declared in the header but not defined in the library)
     for (uint64_t row : {(uint64_t)0, (uint64_t)1, (uint64_t)2047, (uint64_t)2048, (uint64_t)2049})
       for (int i = 0; i < 8; i++) {
         if (dst[8 * row + i] != 0x1000 * (row + 1) + i && verdict == "ok") verdict = "FAIL C10 q120x2_extract_1blk_from_contiguous_q120b_ref reads the wrong row beyond 4 GiB (offset computed in 32 bits)";
-        if (dst2[8 * row + i] != 0x1000 * (row + 1) + i && verdict == "ok") verdict = "FAIL C10 q120x2_extract_1blk_from_contiguous_q120b_avx reads the wrong row beyond 4 GiB (offset computed in 32 bits)";
       }
     fprintf(out.ops, "ca nop huge_span q120 contiguous extract nn=65536 nrows=2050");
     fprintf(out.real, "nop");
